@@ -1007,6 +1007,10 @@ def _expand_stmt(st, defs, cms, owner):
                     ex2[1], ast.Name) and ex2[1].id == tmp:
                 _replace_child(st, call, ast.Name(id=tmp, ctx=ast.Load()))
                 return ex2[0] + [st]
+            if ex2 is not None and ex2[1] is not None:
+                # the helper ends in ``return <expression>``
+                _replace_child(st, call, ex2[1])
+                return ex2[0] + [st]
             continue
         if not isinstance(st, (ast.Expr, ast.Assign, ast.AnnAssign,
                                ast.Return, ast.AugAssign)):
